@@ -8,7 +8,8 @@
    distinct positions below n (checked on every recorded call by the
    harness). *)
 From Coq Require Import ZArith List Bool.
-From Verif Require Import Model.C16 Proofs.C16.
+From Coq Require Import QArith.
+From Verif Require Import Model.C16 Proofs.C16 Gen.DownsampleGen Bridge.C16_bridge.
 Import ListNotations.
 Open Scope Z_scope.
 
@@ -194,3 +195,68 @@ Theorem C16_scatter_deterministic :
     = fst (scatter_ds rng seed47 choice_st g2 xf yf xsf ysf fall ds ri).
 Proof. exact scatter_state_independent. Qed.
 Print Assumptions C16_scatter_deterministic.
+
+(* The selection is a function of the values only, up to a positive unit per
+   array (no dependence on array identity or on the representation scale):
+   scaling a and b by positive constants leaves the mask (or the error)
+   unchanged. Exact arithmetic; binary64/binary32 rounding is not modelled --
+   on the real code float32 and float64 copies of the same values CAN select
+   differently (corpus/C16/15-*.json, reported). *)
+Theorem C16_selection_depends_on_values_only :
+  forall (rng : Type) (seed47 : rng) (choice_st : rng -> Z -> Z -> list Z * rng)
+         (g : rng) (ca cb : Z) (a b : list fval) (samples : Z) (ri : bool),
+    0 < ca -> 0 < cb ->
+    mask_of (fst (downsample_grid rng seed47 choice_st g
+                    (map (scale_fval ca) a) (map (scale_fval cb) b) samples ri))
+    = mask_of (fst (downsample_grid rng seed47 choice_st g a b samples ri)).
+Proof. exact grid_scale_invariant. Qed.
+Print Assumptions C16_selection_depends_on_values_only.
+
+(* ---- source-level tie: Gen/DownsampleGen.v is translated from the text of
+   dclab/downsampling.pyx on every run ------------------------------------- *)
+
+(* norm(ad) * (grid_size - 1) cast to uint32, over exact rationals, is the
+   model's cell index *)
+Theorem C16_source_cell_index :
+  forall z mn mx : Z, 0 < mx - mn ->
+    gen_cell z mn mx = ((z - mn) * 299) / (mx - mn).
+Proof. exact gen_cell_is_model. Qed.
+Print Assumptions C16_source_cell_index.
+
+(* downsample_grid assembled from the translated guard, diff, remove / add /
+   pad conditions and amounts equals the model *)
+Theorem C16_source_grid_is_model :
+  forall (rng : Type) (seed47 : rng) (choice_st : rng -> Z -> Z -> list Z * rng)
+         (g : rng) (a b : list fval) (samples : Z) (ri : bool),
+    gen_downsample_grid rng seed47 choice_st g a b samples ri
+    = downsample_grid rng seed47 choice_st g a b samples ri.
+Proof. exact gen_downsample_grid_is_model. Qed.
+Print Assumptions C16_source_grid_is_model.
+
+Theorem C16_source_rand_is_model :
+  forall (rng : Type) (seed47 : rng) (choice_st : rng -> Z -> Z -> list Z * rng)
+         (g : rng) (a : list fval) (samples : Z) (ri : bool),
+    gen_downsample_rand rng seed47 choice_st g a samples ri
+    = downsample_rand rng seed47 choice_st g a samples ri.
+Proof. exact gen_downsample_rand_is_model. Qed.
+Print Assumptions C16_source_rand_is_model.
+
+(* the main theorem restated for the function assembled from the source *)
+Theorem C16_source_grid_subset_count_partial :
+  forall (rng : Type) (seed47 : rng) (choice_st : rng -> Z -> Z -> list Z * rng),
+    choice_ok seed47 choice_st ->
+    forall (g : rng) (a b : list fval) (samples : Z) (ri : bool),
+      length a = length b -> 0 <= samples ->
+      no_constant_axis a b samples = true ->
+      (ri = false -> samples <= zlen a) ->
+      exists keep g',
+        gen_downsample_grid rng seed47 choice_st g a b samples ri
+        = (Ok (select keep a) (select keep b) keep, g') /\
+        length keep = length a /\
+        count_true keep = spec_count samples
+                            (if ri then count_true (good_mask a b) else zlen a) /\
+        count_true (map2 andb keep (good_mask a b))
+        = spec_count samples (count_true (good_mask a b)) /\
+        (ri = true -> subset_mask keep (good_mask a b) = true).
+Proof. exact gen_grid_count. Qed.
+Print Assumptions C16_source_grid_subset_count_partial.
